@@ -230,8 +230,12 @@ package graph
 //@   callsite Join after_sort: aftercall("Strings", true) && same_elems($arg0, labels)
 
 // ---- C05: RemoveRedundantEdges — an edge is removed only if it is residual, and always from both sides at once (the
-// out-map of its source and the in-map of its destination) ----
+// out-map of its source and the in-map of its destination). C08 (after seeded change redundant-edge-removal-weight-only-order):
+// the in-edges of every node are walked in the order EdgeMap.Sort gives (a strict total order, lemma edge_order), so which
+// of two equally heavy edges stops the walk does not depend on map iteration ----
 //@ func Graph.RemoveRedundantEdges nosafety
+//@   loop 1
+//@     mustcall EdgeMap.Sort total_order: $arg0 == n.In when true
 //@   loop 2
 //@     step only_residual: atiter(2, has(e.Dest.In, e.Src)) && !has(e.Dest.In, e.Src) ==> e.Residual
 //@     step both_sides: atiter(2, has(e.Src.Out, e.Dest)) && atiter(2, has(e.Dest.In, e.Src)) ==> (has(e.Src.Out, e.Dest) <==> has(e.Dest.In, e.Src))
